@@ -323,6 +323,11 @@ def _gradient_cached(expr: Expression, wrt: Variable) -> Expression:
                     coeff = Constant(n)
                     power = _simplify_pow(left, Constant(n - 1))
                     return _simplify_mul(_simplify_mul(coeff, power), d_left)
+            elif _is_zero(d_right):
+                # The exponent (a Parameter, say) does not depend on wrt:
+                # b * a^(b-1) * da.  The general rule below is 0 * inf at a = 0.
+                power = BinaryOp(left, _simplify_sub(right, Constant(1.0)), "**")
+                return _simplify_mul(_simplify_mul(right, power), d_left)
             else:
                 # General case: a^b * (db * ln(a) + b * da / a)
                 # d/dx(a^b) = a^b * (b' * ln(a) + b * a' / a)
@@ -585,6 +590,12 @@ def _gradient_iterative(expr: Expression, wrt: Variable) -> Expression:
                         results[node_id] = _simplify_mul(
                             _simplify_mul(coeff, power), d_left
                         )
+                elif _is_zero(d_right):
+                    # exponent independent of wrt: b * a^(b-1) * da
+                    power = BinaryOp(left, _simplify_sub(right, Constant(1.0)), "**")
+                    results[node_id] = _simplify_mul(
+                        _simplify_mul(right, power), d_left
+                    )
                 else:
                     ln_a = log(left)
                     term1 = _simplify_mul(d_right, ln_a)
